@@ -267,7 +267,9 @@ func (db *DB) basicExport(ctx context.Context, config *client.BackupConfig) (err
 								}
 
 								delete(oldForeignDoc, request.DocIDFieldName)
-								if foreignDoc.ID().String() == foreignDocID.String() {
+								// A self referencing document is created without its reference (see basicImport),
+								// so the reference is not part of its new docID.
+								if oldForeignDoc[field.Name+request.RelatedObjectID] == foreignDoc.ID().String() {
 									delete(oldForeignDoc, field.Name+request.RelatedObjectID)
 								}
 
